@@ -58,7 +58,8 @@ def observe(cases, with_values=True, with_spec=True, orders=None):
         reqs = []
         for c in cases:
             reqs.append('groups\t' + c.invocation().replace('\n', ' '))
-            probes = '@@'.join('%s for %s' % (('%s<%s>' % (c.trait_name, p[0]) if p[0] else c.trait_name) if c.trait_name else '-', p[1]) for p in c.probes)
+            tn = getattr(c, 'trait_prefix', '') + c.trait_name if c.trait_name else None   # the path as the blocks write it
+            probes = '@@'.join('%s for %s' % (('%s<%s>' % (tn, p[0]) if p[0] else tn) if tn else '-', p[1]) for p in c.probes)
             reqs.append('world\t%s\t%s' % ((gp.world_text(c.world) + getattr(c, 'extra_world', '')).replace('\n', ' '), probes))
         resp = cm.run_hook(reqs, exe_hook)
         mreq, midx = [], []
